@@ -41,7 +41,7 @@ THEOREMS = {"C12": ["strip_path_spec", "strip_path_basename", "unquote_quote", "
                     "apply_patch_context_reject_reparses_diff_input",
                     "apply_patch_context_reject_reparses_diff_input_force", "apply_patch_reject_reparses_diff_input"],
             "C14": ["split_lines_roundtrip", "split_lines_wf", "terminator_keep", "terminator_lf", "terminator_crlf",
-                    "final_newline_iff", "apply_output_lines", "split_lines_of_written", "written_lf", "written_crlf"],
+                    "final_newline_iff", "apply_output_lines", "split_lines_of_written", "written_lf", "written_crlf", "split_lines_nocr"],
             "C20": ["define_eval", "apply_conforming_define", "section_define", "cpp_eval_outside", "outside_lines_common", "outside_lines_common_conforming", "cpp_eval_both", "define_texts_bound", "common_lines_unguarded"]}
 
 
